@@ -20,6 +20,17 @@ def edits(payload):
         elif type(cur) is bool:
             out.append(("bool->int", set_at(payload, p, int(cur))))
         elif type(cur) is str:
+            import unicodedata
+            for form in ("NFC", "NFD", "NFKC"):
+                try:
+                    alt = unicodedata.normalize(form, cur)
+                except ValueError:
+                    alt = cur
+                if alt != cur:
+                    out.append(("str->" + form, set_at(payload, p, alt)))
+            lossy = cur.encode("utf-8", "replace").decode("utf-8")
+            if lossy != cur:
+                out.append(("str->lossy-utf8", set_at(payload, p, lossy)))
             out += [("str+", set_at(payload, p, cur + " ")), ("str->case", set_at(payload, p, cur.swapcase())) if cur.swapcase() != cur else ("str+x", set_at(payload, p, cur + "x"))]
         elif cur is None:
             out.append(("null->false", set_at(payload, p, False)))
@@ -47,6 +58,11 @@ def run(ctx):
     rng = ctx.rng
     payloads = list(J.FIXED[:14]) + E.PAYLOADS + [J.rand_json(rng) for _ in range(12 if ctx.quick else 150)]
     payloads += ["s", 7, 1.5, None, False, (1, 2), [(1, 2)]]
+    # strings that spell canonical JSON text of another value: signed as STRINGS
+    payloads += ["12", "null", "{}", "\"abc\"", "[\n  1\n]", "{\n  \"a\": 1\n}", "true"]
+    # payloads that are themselves envelope-shaped (wrapping must still wrap), and strings with canonically equivalent respellings
+    payloads[5:5] = [{"t": "caf\u00e9 \u212b \ufb01", "u": ["cafe\u0301", "x\ud83d", "?"]},
+                     {"signatures": {}, "signed": {"a": 1}}, {"signatures": {PUBHEX[0]: E.raw_sig(0, [1])}, "signed": [1]}]
     bad_payloads = [b"bytes", {1, 2}, Obj(1), {"k": b"b"}, {1: 2}, {"s": {1}}]
     # (1) wrap + signing sequences: every order of 1..3 seeds, repeated signing; implementation envelope = model envelope
     seqs = []
@@ -56,7 +72,7 @@ def run(ctx):
     seqs += [[0, 0], [0, 1, 0], [1, 0, 1, 0], [2, 2, 2], list(range(4)), list(reversed(range(4)))]
     cases = []
     for pi, pl in enumerate(payloads):
-        use = seqs if pi < 6 else rng.sample(seqs, 6)
+        use = seqs if pi < 8 else rng.sample(seqs, 6)
         for sq in use:
             cases.append({"w": wire.case("sign_sequence", pl, [SEEDS[i] for i in sq]), "meta": {"pi": pi, "seq": sq}})
     for pl in bad_payloads:
